@@ -340,11 +340,12 @@ def _histories(ctx, rep):
     base = scratch_dir("c10-")
     try:
         n = ctx.budget(8, 120)
-        forced = [("delete", "open", "crashed"), ("stale", "open", None), ("delete", "open", "failed"), ("unicode-digit", "open", None)]
+        forced = [("delete", "open", "crashed"), ("stale", "open", None), ("delete", "open", "failed"), ("unicode-digit", "open", None),
+                  ("delete", "append-damage-open", None), ("garbage", "append-damage-open", None), ("legacy-missing", "append-damage-open", None)]
         plan = [(0, k, o, w) for k, o, w in forced]
         for hi in range(n):
             for kind in DAMAGES:
-                for op in ("open", "create", "append", "collect"):
+                for op in ("open", "create", "append", "collect", "append-damage-open"):
                     if not ctx.thorough and not ctx.intensify and rng.random() < 0.6:
                         continue
                     plan.append((hi, kind, op, "?"))
@@ -381,6 +382,16 @@ def _histories(ctx, rep):
                         if op == "collect":
                             t2.garbage_collect(grace_period_ms=0)
                             after = _lib_state(t2)
+                        if op == "append-damage-open":
+                            # a commit made UNDER the damaged pointer, then the pointer is lost again, then a fresh open
+                            extra = tablekit.rows(1, start=5000)
+                            t2.append_records(extra)
+                            expect_rows = sorted(expect_rows + [reader.rowkey(r) for r in extra])
+                            del t2
+                            os.remove(os.path.join(path, "metadata.version-hint.text"))
+                            t3 = load_table(path)
+                            after = _lib_state(t3)
+                            after["snaps"] = [s for s in after["snaps"] if s in before["snaps"]]
                     except Exception as e:      # noqa: BLE001
                         if op == "collect" and type(e).__name__ == "GarbageCollectionAborted" and "names a missing metadata file" in str(e):
                             # fail-closed collector (C07): a parseable pointer whose target is missing aborts the collection.
